@@ -78,11 +78,28 @@ def duplicate_refusal(ct, rep, rule="duplicate-refusal"):
     if truthy_block:
         rep.fail(rule, ct.mod.path.name, fq, st, f"presence is decided by the truthiness of the decoded block (`{norm(t)}`): an existing but empty block (len 0) counts as absent, and a missing one raises instead")
     else:
-        over_entries = any(ct.is_entries(x) for x in ast.walk(t)) or any(isinstance(x, ast.Attribute) and is_self_attr(x) and x.attr.startswith("has_") for x in ast.walk(t))
-        if over_entries:
-            rep.ok(rule, f"{fq}: presence is decided over the entry table (`{norm(t)[:80]}`)", nontrivial=True)
+        exact = False
+        why = "is not a membership test over the entry table"
+        for c in ast.walk(t):
+            if isinstance(c, ast.Call) and norm(c.func) == "any" and c.args and isinstance(c.args[0], (ast.GeneratorExp, ast.ListComp)):
+                g = c.args[0]
+                gen = g.generators[0]
+                v = norm(gen.target)
+                if ct.is_entries(gen.iter) and len(g.generators) == 1:
+                    e = g.elt
+                    if not gen.ifs and isinstance(e, ast.Compare) and len(e.ops) == 1 and isinstance(e.ops[0], ast.Eq) and {norm(e.left), norm(e.comparators[0])} == {f"{v}.type", f"{bp}.type"}:
+                        exact = True
+                    else:
+                        why = f"tests `{norm(e)}`" + (f" if {norm(gen.ifs[0])}" if gen.ifs else "") + ", which is narrower/other than `entry.type == block.type`: some blocks of the same type are not seen as duplicates"
+            if isinstance(c, ast.Compare) and len(c.ops) == 1 and isinstance(c.ops[0], ast.In) and norm(c.left) == f"{bp}.type":
+                comp = c.comparators[0]
+                if isinstance(comp, (ast.ListComp, ast.SetComp, ast.GeneratorExp)) and ct.is_entries(comp.generators[0].iter) and not comp.generators[0].ifs \
+                        and norm(comp.elt) == f"{norm(comp.generators[0].target)}.type":
+                    exact = True
+        if exact:
+            rep.ok(rule, f"{fq}: presence is decided by type equality over the whole entry table (`{norm(t)[:80]}`)", nontrivial=True)
         else:
-            rep.fail(rule, ct.mod.path.name, fq, st, f"presence test `{norm(t)}` is not a membership test over the entry table")
+            rep.fail(rule, ct.mod.path.name, fq, st, f"presence test `{norm(t)}` {why}")
     # before any effect
     eff = ff.ev(*M.FILE_EFFECTS, "table_store", "table_append", "table_remove")
     if eff and all(cfg.dominates(cfg.node_of(st), e.node) for e in eff):
@@ -299,10 +316,10 @@ def run(prog, rep):
         "resolves; accessor-agreement: getter / has_ predicate / setter / decoded class of each convenience group name one block "
         "type; count-definition; lookup-contract."
     )
-    swallowed_raises(ct, rep)
-    duplicate_refusal(ct, rep)
-    self_attr_resolves(ct, rep)
-    accessor_agreement(ct, rep)
-    count_definition(ct, rep)
-    lookup_contract(ct, rep)
+    for rule in (swallowed_raises, duplicate_refusal, self_attr_resolves, accessor_agreement, count_definition, lookup_contract):
+        rep.attempt(rule, ct, rep)
+    # the accessors are computed from the in-memory table, re-read from disk on every (implicit) context: they report the live
+    # blocks only if every table change is also written to its slot (C10's pairing, a necessary condition here)
+    rep.attempt(M.dirty_entry, ct, rep, rule="table-pairing")
+    rep.attempt(M.slot_position, ct, rep, rule="table-pairing/slot")
     rep.not_decided += ["accessor agreement on concrete histories (follows from C10's pairing, not re-proved)"]
